@@ -1,0 +1,21 @@
+//go:build verif
+
+package termexec
+
+// Machine-checked contracts for /verif (gowp). Comment-only file: it adds no code.
+// Clause language: see /verif/DESIGN.md §2.2. Loops are numbered in source order.
+
+// C14 (within one body, commands run one at a time in script order and stop at the first
+// failing command): the execute loop goes round again only after a command that succeeded; a
+// failing command's error is handed to the scope and returned, and nothing runs after it.
+// The next line is requested from the reader goroutine only at the start of a pass, that is
+// after the previous command has returned.
+//@ func RunLoop [C14]
+//@   layers contract trace
+//@   trace RunCommand as RUN bind rerr
+//@   trace Scope.AppendError as FAIL
+//@   loop 1 invariant rerr == nil
+//@   loop 1 trace_step true : ^(?:RUN )?$
+//@   at_call Scope.AppendError requires len($0) == 1 && $0[0] == rerr && rerr != nil
+//@   trace_ensures rerr != nil : RUN FAIL $
+//@   ensures rerr != nil ==> err == rerr
